@@ -31,12 +31,32 @@ vars == <<al, s, sub>>
 (*   S:   S U+0053, s U+0073, long s U+017F                                  *)
 (*   SIG: Sigma U+03A3, final sigma U+03C2, sigma U+03C3                     *)
 (*   A:   A, a        E: E-acute U+00C9, e-acute U+00E9       ONE: '1'       *)
+(* ASCII characters that are NOT letters but differ from another ASCII       *)
+(* character only in bit 0x20, or sit right next to the letter ranges: a      *)
+(* byte-level "lower-casing" by OR 0x20 confuses them ('[' with '{', '\' with  *)
+(* '|', ']' with '}', '^' with '~', '_' with DEL, '@' with '`', digits with   *)
+(* the controls 0x10..0x19, space with NUL, '-' with CR).  Each is a          *)
+(* singleton orbit of one byte: nothing folds to anything else.               *)
+PunctTable == [AT |-> <<1>>, BQ |-> <<1>>, LB |-> <<1>>, LC |-> <<1>>, BSL |-> <<1>>, PIPE |-> <<1>>,
+               RB |-> <<1>>, RC |-> <<1>>, CARET |-> <<1>>, TILDE |-> <<1>>, US |-> <<1>>, DEL |-> <<1>>,
+               D0 |-> <<1>>, C10 |-> <<1>>, D9 |-> <<1>>, C19 |-> <<1>>, SP |-> <<1>>, NUL |-> <<1>>,
+               DASH |-> <<1>>, CR |-> <<1>>]
+
 ModelTable == [K   |-> <<1, 1, 3>>,
                S   |-> <<1, 1, 2>>,
                SIG |-> <<2, 2, 2>>,
                A   |-> <<1, 1>>,
                E   |-> <<2, 2>>,
                ONE |-> <<1>>]
+            @@ PunctTable
+
+AlphaP1 == {<<"AT", 1>>, <<"BQ", 1>>, <<"LB", 1>>, <<"LC", 1>>, <<"BSL", 1>>, <<"PIPE", 1>>, <<"A", 1>>, <<"A", 2>>}
+AlphaP2 == {<<"RB", 1>>, <<"RC", 1>>, <<"CARET", 1>>, <<"TILDE", 1>>, <<"US", 1>>, <<"DEL", 1>>, <<"A", 1>>, <<"A", 2>>}
+AlphaP3 == {<<"D0", 1>>, <<"C10", 1>>, <<"D9", 1>>, <<"C19", 1>>, <<"SP", 1>>, <<"NUL", 1>>, <<"DASH", 1>>, <<"CR", 1>>,
+            <<"A", 1>>, <<"A", 2>>}
+(* punctuation that differs from a letter-range neighbour only in bit 0x20, mixed with letters of both cases *)
+AlphaP4 == {<<"LB", 1>>, <<"LC", 1>>, <<"BSL", 1>>, <<"PIPE", 1>>, <<"CARET", 1>>, <<"TILDE", 1>>, <<"K", 1>>, <<"K", 2>>}
+FamiliesPunct == {AlphaP1, AlphaP2, AlphaP3, AlphaP4}
 
 AlphaK   == {<<"K", 1>>, <<"K", 2>>, <<"K", 3>>, <<"A", 2>>, <<"E", 1>>, <<"ONE", 1>>}
 AlphaS   == {<<"S", 1>>, <<"S", 2>>, <<"S", 3>>, <<"A", 1>>, <<"E", 2>>, <<"ONE", 1>>}
